@@ -131,7 +131,13 @@ theorem autoLayers_ml (env : Env) (st : Store) (mt : Meta) : ml ((autoLayers env
     obtain ⟨t, p⟩ := tp
     cases p <;> simp [newLayer, ml]
 
-theorem fileLayers_dec {env : Env} (hinj : HashInj env) (ds : List Digest) {st : Store} (hb : BlobsOk env st) :
+/-- no GGUF the decoder accepts is an adapter or a projector (`general.type`): every file layer of a create is a
+    MODEL layer.  Without it a create from `files` that hold only an adapter is listed and cannot be shown
+    (finding N6, `N6_witness`). -/
+def ModelKinds (env : Env) : Prop := ∀ c mt, env.gguf c = some mt → mt.kind = .model
+
+theorem fileLayers_dec {env : Env} (hinj : HashInj env) (hkind : ModelKinds env) (ds : List Digest) {st : Store}
+    (hb : BlobsOk env st) :
     ∀ b, (fileLayers env st ds).2 = .ok b →
       (∀ l ∈ ml (b.map (·.1)), DecL env l) ∧ (ds ≠ [] → ml (b.map (·.1)) ≠ []) := by
   induction ds generalizing st with
@@ -165,6 +171,8 @@ theorem fileLayers_dec {env : Env} (hinj : HashInj env) (ds : List Digest) {st :
               simp only at h
               injection h with e; subst e
               have ihr := ih (st := st1) (sa.blobsOk hb) r (by rw [hfl])
+              have hkm : mt.kind = .model := hkind c mt hg
+              rw [hkm]
               have hd : DecL env ⟨.model, env.recorded d, c.length⟩ :=
                 ⟨c, by rw [recorded_hex]; exact hb _ _ hc, by rw [hg]; rfl⟩
               have hcons : ∀ (x : Layer) (xs : List Layer), x.media = .model → ml (x :: xs) = x :: ml xs := by
@@ -240,7 +248,8 @@ theorem fromLayers_shape {env : Env} {st : Store} (ls : List Layer) :
           exact key _ r hr
 
 /-- with N1 repaired, the base layers of a create have a model layer and all their model layers are decodable -/
-theorem baseLayers_dec {env : Env} (hv : env.v.fixReturn = true) (hinj : HashInj env) {st : Store}
+theorem baseLayers_dec {env : Env} (hv : env.v.fixReturn = true) (hinj : HashInj env) (hkind : ModelKinds env)
+    {st : Store}
     (hb : BlobsOk env st) (hs : ShowInv env st) (r : CreateReq) (frev : Bool) :
     ∀ b, (baseLayers env st r frev).2.1 = some b →
       ml (b.map (·.1)) ≠ [] ∧ ∀ l ∈ ml (b.map (·.1)), DecL env l := by
@@ -289,7 +298,7 @@ theorem baseLayers_dec {env : Env} (hv : env.v.fixReturn = true) (hinj : HashInj
         | ok b' =>
           simp only at h
           injection h with e; subst e
-          have := fileLayers_dec hinj _ hb b' (by rw [hfl])
+          have := fileLayers_dec hinj hkind _ hb b' (by rw [hfl])
           refine ⟨this.2 ?_, this.1⟩
           intro hnil
           apply hne
@@ -335,11 +344,12 @@ theorem createModel_err_mans (env : Env) (st : Store) (name : Name) (base : List
             | some l3 => simp at h
 
 /-- create keeps `ShowInv` once N1 is repaired (pinned: a FROM error leaves a manifest without model layer) -/
-theorem createAt_showInv {env : Env} (hv : env.v.fixReturn = true) (hinj : HashInj env) {st : Store}
+theorem createAt_showInv {env : Env} (hv : env.v.fixReturn = true) (hinj : HashInj env) (hkind : ModelKinds env)
+    {st : Store}
     (hb : BlobsOk env st) (hs : ShowInv env st) (r : CreateReq) (name : Name) (frev : Bool) :
     ShowInv env (createAt env st r name frev).1 := by
   have hbm := baseLayers_mans env st r frev
-  have hdec := baseLayers_dec hv hinj hb hs r frev
+  have hdec := baseLayers_dec hv hinj hkind hb hs r frev
   unfold createAt
   simp only
   cases hbl : baseLayers env st r frev with
@@ -406,7 +416,8 @@ def PullShowOk (env : Env) : Op → Prop
   | _ => True
 
 /-- every operation keeps `ShowInv` (create: with N1 repaired; pull: of a manifest that can be shown) -/
-theorem step_showInv {env : Env} (hv : env.v.fixReturn = true) (hinj : HashInj env) {st : Store}
+theorem step_showInv {env : Env} (hv : env.v.fixReturn = true) (hinj : HashInj env) (hkind : ModelKinds env)
+    {st : Store}
     (hb : BlobsOk env st) (hs : ShowInv env st) (op : Op) (ch : Choice) (hp : PullShowOk env op) :
     ShowInv env (step env st op ch).1 := by
   have frame := step_man_frame env st op ch
@@ -418,7 +429,7 @@ theorem step_showInv {env : Env} (hv : env.v.fixReturn = true) (hinj : HashInj e
   | litter j c => exact same rfl
   | litterBlob k c => exact same rfl
   | litterMan p => exact same rfl
-  | create r => exact createAt_showInv hv hinj hb hs r _ _
+  | create r => exact createAt_showInv hv hinj hkind hb hs r _ _
   | pull t reg served =>
     refine showInv_of hs (fun n m hm => ?_)
     by_cases hn : n = pullTarget env (resolveName env st ch.ord1 t)
